@@ -61,7 +61,8 @@ CFG = {
                                 DeclL=E(0, 1), DeclM=E(0), DeclT=E(0), DeclA=E(0),
                                 Values={"one", "fhuge", "minute"},
                                 # results that are bare numbers: Python int / float, SymPy Integer / Float, extremes
-                                NumValues={"one", "sone", "f25", "sf25", "frac", "dec", "mpf", "fraczero", "huge", "fminute"},
+                                NumValues={"one", "sone", "f25", "sf25", "frac", "dec", "mpf", "fraczero", "huge", "fminute",
+                                           "zero", "fzero", "inf", "finf", "nan"},    # also as the 'same as' reference
                                 Prefixes={"base"},
                                 Shapes={"scalar"}, MaxSeq=0, TupleDecls=False, MaxParams=1,
                                 ResultKinds={"none", "dim", "same"}, **NOVEC),
